@@ -135,6 +135,12 @@ class RunProbe:
             self.rec.fired('task-raise')
             self.rec.ev('fault', 'raise', n)
             raise PlannedFailure(n)
+        if f == 'raise-chained':
+            # the task's own exception has a cause of its own (raise X from Y)
+            self.rec.fired('task-raise')
+            self.rec.fired('task-raise-chained')
+            self.rec.ev('fault', 'raise', n)
+            raise PlannedFailure(n) from KeyError('inner cause of the planned failure')
         if f == 'sysexit':
             # a task that calls sys.exit(): fails with a BaseException that is not an Exception
             self.rec.fired('task-sysexit')
@@ -208,6 +214,8 @@ class StorageCtl:
         self.window_ops = 0                      # ops seen inside save windows
         self.window_log: list[tuple] = []
         self.count_only = sc.get('io_count_only', False)
+        self.load_fault_keys: set = set()          # cache keys whose load gets a read error (set by execute)
+        self.submitted_keys: set = set()           # cache keys of tasks already handed to the runner
 
     def _who(self):
         if self.sim is not None:
@@ -229,6 +237,10 @@ class StorageCtl:
         self.window_ops += 1
         self.window_log.append((idx, label))
         f = self.io_fault
+        if f is not None and f.get('node') is not None and self.probe.save_armed != f['node'] and not (e is not None and e.kind == 'worker' and e.node == f['node']):
+            self.window_ops -= 1
+            self.window_log.pop()
+            return None
         if f is not None and f['index'] == idx and not f.get('done'):
             f['done'] = True
             code = getattr(errno, f.get('errno', 'EIO'))
@@ -247,6 +259,13 @@ class StorageCtl:
         self.rec.ev('st', kind, key, filename, mode, who)
         if self.sim is not None:
             self.sim.yp('st.' + kind)
+        if kind == 'open' and mode and 'r' in mode and key in self.load_fault_keys and key in self.submitted_keys:
+            # a storage read error while a cached result is being loaded: the first read-open of the entry
+            # after its task was handed to the runner (is_cached probes happen before that)
+            self.load_fault_keys.discard(key)
+            self.rec.fired('load-read-error')
+            self.rec.ev('fault', 'load-io', key, filename)
+            raise OSError(errno.EIO, f'simlab injected EIO reading {filename}')
         self._fault(f'st.{kind}:{filename}:{mode}', e)
 
     def file_op(self, f, kind, n=0):
@@ -450,6 +469,40 @@ def warm_cache(sc: dict, storage_dir: str) -> dict[int, Value]:
     return values
 
 
+def make_debris(sc: dict, ch: Choices, storage_dir: str) -> list:
+    """Pre-state: for each node of sc['debris'] the storage holds what a save that failed part-way
+    leaves behind (created by a real earlier serial run whose save of that node gets an injected
+    storage error).  Such a node is not cached.  Returns the nodes for which debris really exists."""
+    ref = Ref(sc)
+    keep = set(sc.get('cached', []))
+    made = []
+    for n in sc['debris']:
+        if n in keep or not ref.cacheable(n):
+            continue
+        pre = {k: v for k, v in sc.items() if k in ('nodes', 'cpu_count')}
+        pre.update({'requested': [[n, 0]], 'backend': 'serial', 'max_workers': 1, 'cof': True, 'skip_warm': True,
+                    'gen_main': sc.get('gen_pre', 0), 'observe_after': False, 'observe_before': False,
+                    'cached': sorted(keep), 'io_fault': {'index': 2 + (n % 3), 'errno': 'EIO', 'node': n}})
+        execute(pre, Choices(seed=f'debris:{n}'), storage_dir)
+        made.append(n)
+    # dependencies executed (and cached) on the way are not part of the pre-state
+    kb = Built({**sc, 'requested': []})
+    for i in ref.closure(made):
+        if i not in keep and i not in made and ref.cacheable(i):
+            d = key_dir(storage_dir, kb.get(i, 1))
+            if os.path.isdir(d):
+                shutil.rmtree(d)
+    # a fault index beyond the end of a save leaves a complete entry: that is not debris
+    state = observe_cache(sc, storage_dir, made) if made else {}
+    real = []
+    for n in made:
+        if state.get(n) is True:
+            shutil.rmtree(key_dir(storage_dir, kb.get(n, 1)), ignore_errors=True)
+        else:
+            real.append(n)
+    return real
+
+
 def meta_tuple(m: Optional[ResultMeta]):
     if m is None:
         return None
@@ -587,6 +640,8 @@ def execute(sc: dict, ch: Choices, storage_dir: Optional[str], storage_obj=None,
             out.exc = describe_exc(ex)
             out.events = [('warmup-failed', out.exc['type'])]
             return out
+    if storage_dir is not None and sc.get('debris') and not sc.get('skip_warm'):
+        sc['debris'] = make_debris(sc, ch, storage_dir)
     if built is None:
         built = Built(sc)
     else:
@@ -768,15 +823,18 @@ def execute(sc: dict, ch: Choices, storage_dir: Optional[str], storage_obj=None,
         simos._real_streams['stderr'] = devnull
         _sys.stderr._fallback = devnull
 
-    if sim is None:
-        # close the save window when the coordinator sees the completion
-        orig_ev = rec.ev
+    ctl.load_fault_keys = {out.keys[int(n)] for n in (sc.get('load_faults') or []) if int(n) in out.keys}
+    orig_ev = rec.ev
+    serial_like = sim is None
 
-        def ev2(*e):
-            if e[0] == 'complete' and probe.save_armed == e[1]:
-                probe.save_armed = None
-            orig_ev(*e)
-        rec.ev = ev2   # type: ignore
+    def ev2(*e):
+        if e[0] == 'submit' and e[1] in out.keys:
+            ctl.submitted_keys.add(out.keys[e[1]])
+        # S0/S1: close the save window when the coordinator sees the completion
+        if serial_like and e[0] == 'complete' and probe.save_armed == e[1]:
+            probe.save_armed = None
+        orig_ev(*e)
+    rec.ev = ev2   # type: ignore
 
     try:
         prelude = sc.get('prelude')
